@@ -67,7 +67,7 @@ public:
         // jump to scanline
         long offset = 0;
 
-        if( this->_info._height > 0 )
+        if( !this->_info._top_down )
         {
             // the image is upside down
             offset = this->_info._offset
